@@ -432,12 +432,24 @@ func c18Scenarios(thorough bool) []c18scenario {
 		wa, wb := wireOf(oa.alt), wireOf(ob.alt)
 		out = append(out, c18scenario{name: name, driver: "A-distinct-packets", mk: func() ([]c18thread, func() string) {
 			pa, pb := oa.mk(), ob.mk()
+			ref.PadCapacity(pa, 3)
+			ref.PadCapacity(pb, 3)
+			xa, xb := hasXR(pa), hasXR(pb)
 			Ba, Bb := append([]byte{}, wa...), append([]byte{}, wb...)
 			return []c18thread{
 					{opa + "(" + ta + ")", func() string { r, _ := a.run(pa, ta, Ba); return r }},
 					{opb + "(" + tb + ")", func() string { r, _ := b.run(pb, tb, Bb); return r }},
 				}, func() string {
-					return fmt.Sprintf("%x|%x", Ba, Bb)
+					// the packets themselves are part of the observable final state, except that
+					// ExtendedReport.Marshal may fill block headers (documented)
+					sa, sb := "", ""
+					if !xa {
+						sa = ref.DumpCap(pa)
+					}
+					if !xb {
+						sb = ref.DumpCap(pb)
+					}
+					return fmt.Sprintf("%x|%x|%s|%s", Ba, Bb, sa, sb)
 				}
 		}})
 	}
